@@ -254,6 +254,14 @@ type realResultG struct {
 	args     []string
 	usage    bool
 	root     reflect.Value
+
+	// second Parse call on the same FlagSet, see secondVector
+	second      bool
+	secondPanic string
+	secondErr   error
+	args2       []string
+	usage2      bool
+	vals1       []any // field values after the first call
 }
 
 func runRealG(argv []string, l *layout) (r realResultG) {
@@ -274,6 +282,20 @@ func runRealG(argv []string, l *layout) (r realResultG) {
 	}
 	r.args = fs.Args()
 	r.usage = fs.ShowUsage()
+	r.vals1 = make([]any, len(l.fields))
+	for i := range l.fields {
+		r.vals1[i] = r.root.FieldByIndex(l.fidx[i]).Interface()
+	}
+	func() {
+		defer func() {
+			if p := recover(); p != nil {
+				r.secondPanic = fmt.Sprint(p)
+			}
+		}()
+		r.second = true
+		r.secondErr = fs.Parse(append([]string(nil), secondVector...))
+	}()
+	r.args2, r.usage2 = fs.Args(), fs.ShowUsage()
 	return r
 }
 
@@ -328,7 +350,12 @@ func clipArgs(a []string) []string {
 
 // judgeG: the same comparisons, in the same order, as judge.
 func judgeG(l *layout, o *outcome, r *realResultG, argvModel, argvReal []string) (kind, expected, observed string) {
-	got := func(i int) any { return r.root.FieldByIndex(l.fidx[i]).Interface() }
+	got := func(i int) any {
+		if r.vals1 != nil {
+			return r.vals1[i]
+		}
+		return r.root.FieldByIndex(l.fidx[i]).Interface()
+	}
 	switch {
 	case r.panicked != "":
 		return "panic", "no panic (model: " + l.describe(o) + ")", "panic: " + r.panicked
@@ -351,6 +378,27 @@ func judgeG(l *layout, o *outcome, r *realResultG, argvModel, argvReal []string)
 	for i := range l.fields {
 		if !sameValue(l.kinds[i], o.vals[i], got(i)) {
 			return "field-differ:" + l.names[i], "cfg=" + l.showVals(func(i int) any { return o.vals[i] }), "cfg=" + l.showVals(got)
+		}
+	}
+	if r.second {
+		wantArgs, what := o.args, "refused second Parse"
+		if r.secondErr == nil {
+			wantArgs, what = secondArgs, "accepted second Parse"
+		}
+		what = fmt.Sprintf("after the %s(%q): ", what, secondVector)
+		got2 := func(i int) any { return r.root.FieldByIndex(l.fidx[i]).Interface() }
+		switch {
+		case r.secondPanic != "":
+			return "second-parse:panic", "no panic", "panic: " + r.secondPanic
+		case !sameStrings(wantArgs, r.args2):
+			return "second-parse:args-differ", what + fmt.Sprintf("Args()=%q", clipArgs(wantArgs)), fmt.Sprintf("Args()=%q", clipArgs(r.args2))
+		case o.usage != r.usage2:
+			return "second-parse:usage-differ", what + fmt.Sprintf("ShowUsage()=%v", o.usage), fmt.Sprintf("ShowUsage()=%v", r.usage2)
+		}
+		for i := range l.fields {
+			if !sameValue(l.kinds[i], o.vals[i], got2(i)) {
+				return "second-parse:field-differ:" + l.names[i], what + "cfg=" + l.showVals(func(i int) any { return o.vals[i] }), "cfg=" + l.showVals(got2)
+			}
 		}
 	}
 	return "", "", ""
